@@ -62,7 +62,7 @@ class C03(Check):
                  "sharded_file_accessor", "accessor.get_accessor_for_url"],
         "simulated": ["raw file I/O (SimFS)", "temp names", "gzip clock"],
     }
-    tiers = {"quick": dict(runs=1600, budget=60),
+    tiers = {"quick": dict(runs=8000, budget=60),
              "thorough": dict(runs=60000, budget=720)}
     expected_probes = ["invalid_rejected", "border_chunk", "rewrite",
                       "fresh_handle_read", "noncubic_block", "jpeg_compared",
